@@ -39,7 +39,7 @@ def strategy(tier):
 
 
 def n_random(tier):
-    return 2600 if tier == "quick" else 120000
+    return 2600 if tier == "quick" else 20000
 
 
 def check(case):
